@@ -1264,10 +1264,14 @@ def run(ctx):
                         'crash-atomicity of open(path, "w") is outside the property']
     facts, _ = repo_paths.generate()
     ctx.extra['translator_notes'] = facts['notes']
-    ok_generic = ctx.lean_check(['Cherab.Props.C06'], 'Cherab/Audit/C06.lean')
-    cmd1 = ctx.checker_cmd
-    ok_table = ctx.lean_check(['Cherab.Props.C06Table'], 'Cherab/Audit/C06Table.lean')
-    ctx.checker_cmd = cmd1 + ' ; ' + ctx.checker_cmd
+    # generic theory (any tables), then the obligations on the tables generated from the current source, one module each
+    # so that a violated table obligation does not hide the others
+    cmds, ok_mod = [], {}
+    for mod in ('C06', 'C06Table', 'C06TableAdd', 'C06TableRoot', 'C06TableAll'):
+        ok_mod[mod] = ctx.lean_check(['Cherab.Props.' + mod], 'Cherab/Audit/%s.lean' % mod)
+        cmds.append(ctx.checker_cmd)
+    ctx.checker_cmd = ' ; '.join(cmds)
+    ok_table = all(ok_mod[m] for m in ('C06Table', 'C06TableAdd', 'C06TableRoot', 'C06TableAll'))
     ctx.traces = 0
     import time
     t0 = time.time()
@@ -1278,9 +1282,10 @@ def run(ctx):
     runs = []        # (label, History)
     reported = set()
 
-    def do(label, ops, probes, sig_override=None, max_other=1000):
+    def do(label, ops, probes, sig_override=None, max_other=1000, model=True):
         h = run_history(facts, ops, probes, rng=rng, max_other=max_other)
-        runs.append((label, h))
+        if model:
+            runs.append((label, h))
         for k, v in h.stats.items():
             ctx.count(k, v)
         for op in ops[:h.nops]:
@@ -1304,17 +1309,18 @@ def run(ctx):
         for fn in sorted(os.listdir(cdir)):
             if fn.endswith('.json'):
                 c = json.load(open(os.path.join(cdir, fn)))
-                do('corpus:' + fn, c['ops'], [tuple(p) for p in c.get('probes', [])], c.get('signature'))
+                do('corpus:' + fn, c['ops'], [tuple(p) for p in c.get('probes', [])], c.get('signature'), model=c.get('model', True))
     # 1. targeted
     for label, ops, probes in targeted_histories():
         do(label, ops, probes)
-    h = do('separator', SEPARATOR_HISTORY, [], sig_override='C06:encode_transition:separator-in-level-collides')
+    # S only: level strings containing the separator are outside what the model is tied on
+    do('separator', SEPARATOR_HISTORY, [], sig_override='C06:encode_transition:separator-in-level-collides', model=False)
     # 2. random interleavings
-    n = ctx.n(60, 1500)
+    n = ctx.n(150, 3000)
     for i in range(n):
         default_root = i % 8 == 7
         ops, probes = gen_history(rng, rng.randint(5, 40), default_root=default_root)
-        do('random-%d' % i, ops, probes, max_other=6)
+        do('random-%d' % i, ops, probes, max_other=12)
 
     ctx.extra['seconds']['implementation'] = round(time.time() - t0, 1)
     t0 = time.time()
